@@ -33,6 +33,8 @@ PROPS["C19"] = dict(
         dict(name="enum", pkg="c19", run="TestEnum", shards=dict(quick=1, thorough=16), timeout=dict(quick=300, thorough=1500)),
         dict(name="random", pkg="c19", run="TestRandom", checks=dict(quick=160000, thorough=1600000),
              shards=dict(quick=4, thorough=16), timeout=dict(quick=300, thorough=1500)),
+        # a value written at a valueless prefix key while the only longer key below it is removed (package c20)
+        dict(name="concurrentprefix", pkg="c20", run="TestSharedKeyTrieSubs|TestSharedKeyTrieTopics", shards=dict(quick=4, thorough=8), timeout=dict(quick=300, thorough=1800)),
     ],
 )
 
@@ -112,6 +114,7 @@ PROPS["C04"] = dict(
              shards=dict(quick=4, thorough=16), timeout=dict(quick=300, thorough=1800)),
         dict(name="hammer", pkg="c04", run="TestHammerOneKey", race=True, shards=dict(quick=2, thorough=8), timeout=dict(quick=300, thorough=1800)),
         dict(name="freshseconds", pkg="c04", run="TestHammerFreshSeconds", shards=dict(quick=2, thorough=8), timeout=dict(quick=300, thorough=1800)),
+        dict(name="bigsweep", pkg="c04", run="TestHammerBigSweep", shards=dict(quick=2, thorough=8), timeout=dict(quick=300, thorough=1800)),
     ],
 )
 
@@ -148,6 +151,7 @@ PROPS["C08"] = dict(
              shards=dict(quick=8, thorough=16), timeout=dict(quick=300, thorough=1800)),
         # two versions of one entry delivered at the same moment by two goroutines (package c20)
         dict(name="concurrentmerge", pkg="c20", run="TestSharedKeyMerge", shards=dict(quick=4, thorough=8), timeout=dict(quick=300, thorough=1800)),
+
     ],
 )
 
@@ -192,6 +196,8 @@ PROPS["C10"] = dict(
         dict(name="regress", pkg="c10", run="TestRegress"),
         dict(name="random", pkg="c10", run="TestRandom", checks=dict(quick=200000, thorough=1000000),
              shards=dict(quick=8, thorough=16), timeout=dict(quick=300, thorough=1800)),
+        # snapshots taken while the node is written to, then one after the last write (package c20)
+        dict(name="concurrentsnapshot", pkg="c20", run="TestSharedKeySnapshot", shards=dict(quick=4, thorough=8), timeout=dict(quick=300, thorough=1800)),
     ],
 )
 
@@ -220,6 +226,7 @@ PROPS["C01"] = dict(
         dict(name="histories", pkg="c01", run="TestHistories", checks=dict(quick=60000, thorough=400000), shards=dict(quick=4, thorough=16), timeout=dict(quick=300, thorough=1800)),
         dict(name="e2e", pkg="c01", run="TestE2E", checks=dict(quick=640, thorough=6000), shards=16, timeout=dict(quick=400, thorough=2400), shrinktime="90s"),
         dict(name="digest", pkg="c01", run="TestDigestCollisions", timeout=600),
+        dict(name="wide", pkg="c01", run="TestWide", checks=dict(quick=640, thorough=8000), shards=dict(quick=4, thorough=16), timeout=dict(quick=300, thorough=1800)),
     ],
 )
 
@@ -448,6 +455,7 @@ PROPS["C07"] = dict(
         dict(name="e2e", pkg="c07", run="TestE2E", checks=dict(quick=640, thorough=6000), shards=16, timeout=dict(quick=400, thorough=2400), shrinktime="90s"),
         dict(name="writers", pkg="c07", run="TestTwoWriters", checks=dict(quick=20000, thorough=200000), shards=dict(quick=4, thorough=16), timeout=dict(quick=300, thorough=1800)),
         dict(name="writersenum", pkg="c07", run="TestTwoWritersEnum", shards=dict(quick=2, thorough=16), timeout=dict(quick=300, thorough=1800)),
+        dict(name="manyretained", pkg="c07", run="TestManyRetained", checks=dict(quick=64, thorough=640), shards=16, timeout=dict(quick=400, thorough=2400), shrinktime="60s"),
     ],
 )
 
@@ -471,6 +479,7 @@ PROPS["C16"] = dict(
         dict(name="file", pkg="c16", run="TestFile", checks=dict(quick=20000, thorough=400000), shards=dict(quick=8, thorough=16), timeout=dict(quick=300, thorough=1800)),
         dict(name="static", pkg="c16", run="TestStatic", checks=dict(quick=4000, thorough=100000), shards=dict(quick=2, thorough=8), timeout=dict(quick=300, thorough=1800)),
         dict(name="e2e", pkg="c16", run="TestE2E", checks=dict(quick=640, thorough=6000), shards=16, timeout=dict(quick=400, thorough=2400), shrinktime="90s"),
+        dict(name="concurrent", pkg="c16", run="TestConcurrentAuth", shards=dict(quick=2, thorough=8), timeout=dict(quick=300, thorough=1800)),
     ],
 )
 
@@ -569,6 +578,7 @@ PROPS["C20"] = dict(
         dict(name="inflight", pkg="c04", run="TestConcurrent", race=True, checks=dict(quick=1600, thorough=8000), shards=dict(quick=4, thorough=16), timeout=dict(quick=300, thorough=1800)),
         dict(name="hammer", pkg="c04", run="TestHammerOneKey", race=True, shards=dict(quick=2, thorough=8), timeout=dict(quick=300, thorough=1800)),
         dict(name="freshseconds", pkg="c04", run="TestHammerFreshSeconds", shards=dict(quick=2, thorough=8), timeout=dict(quick=300, thorough=1800)),
+        dict(name="bigsweep", pkg="c04", run="TestHammerBigSweep", shards=dict(quick=2, thorough=8), timeout=dict(quick=300, thorough=1800)),
         # same key from several goroutines, where the outcome is still schedule independent (no race detector: the window is what matters)
         dict(name="sharedkey", pkg="c20", run="TestSharedKey", shards=dict(quick=5, thorough=10), timeout=dict(quick=300, thorough=1800)),
     ],
